@@ -1557,6 +1557,21 @@ impl<'a> Interp<'a> {
                 self.fault("target_mutation");
             }
         }
+        // writing through a content path that an earlier fault turned into a symlink damages the link's target
+        if changed && act != "symlink_to" {
+            if let Ok(md) = std::fs::symlink_metadata(&path) {
+                if md.file_type().is_symlink() {
+                    if let Ok(t) = std::fs::canonicalize(&path) {
+                        if let Ok(rel) = t.strip_prefix(std::fs::canonicalize(&self.cache).unwrap_or(self.cache.clone())) {
+                            let rel = rel.to_string_lossy().to_string();
+                            if let Some(c) = self.m.content.get_mut(&rel) {
+                                c.state = CState::Damaged;
+                            }
+                        }
+                    }
+                }
+            }
+        }
         // model update by the fault's definition
         if let Some(a) = st.get("content") {
             let s = self.addr(a);
